@@ -6,6 +6,7 @@ import LzmaVerif.Model.Lzma2
 import LzmaVerif.Model.Lzma2Check
 import LzmaVerif.Model.Filters
 import LzmaVerif.Model.Xz
+import LzmaVerif.Model.Guards
 import LzmaVerif.Model.XzStrict
 import LzmaVerif.Model.LzipFile
 import LzmaVerif.Model.Split
@@ -254,6 +255,13 @@ def handle (cmd : String) (a : Args) : String :=
   | "bcj.wstream" | "bcj.rstream" => handleBcjStream cmd a
   | "mem.enc" | "mem.lzmadec" | "mem.lzma2dec" => handleMem cmd a
   | "xz.dec" | "xz.strict" | "lzip.dec" => handleContainer cmd a
+  | "lzip.scan" => match a.bytes? "in" with
+      -- `LZIPReaderMT::new` = `scan_members`: number of members found, or the error class
+      | some inp => (match Guards.scanFile inp with
+          | .ok ms => s!"ok {ms.length}"
+          | .error .eof => "err UnexpectedEof"
+          | .error _ => "err InvalidData")
+      | none => "bad-op"
   | "bcj.code" | "bcj.step" | "delta.enc" | "delta.dec" => handleFilter cmd a
   | "lzma2.dec" => handleLzma2Dec a
   | "lzma.dec" => handleLzmaDec a
